@@ -329,6 +329,15 @@ func (d *ColumnDetector) findVerticalGaps(fragments []text.TextFragment, pageWid
 	// Build histogram of fragment density across X axis
 	// Use 5-point buckets for good resolution
 	bucketSize := 5.0
+
+	// The page width comes from a page box read from the file: it must not
+	// size the allocation unchecked.
+	const maxHistogramWidth = 1 << 20 // points; far beyond any page size PDF allows
+	if !(pageWidth >= 0) {
+		pageWidth = 0
+	} else if pageWidth > maxHistogramWidth {
+		pageWidth = maxHistogramWidth
+	}
 	numBuckets := int(pageWidth/bucketSize) + 1
 	histogram := make([]int, numBuckets)
 
